@@ -28,10 +28,22 @@ def run(ctx):
         for f in r["failures"]:
             f["kind"] = "predicate"
             f["clause"] = "collected flags differ from 'flag of the covering context, fill value elsewhere' (or the call raised)"
+    # end to end: real front ends (rows selected by the stream itself, arbitrary DataFrame index) -> collect ->
+    # compare row by row with the probe called directly on each window's rows
+    import fn_stream as fs
+    e2e = fs.gen_stream("quick", rng, frontends=("pandas", "numpy", "netcdf"), wforms=False)
+    e2e = e2e if tier != "quick" else rng.sample(e2e, min(len(e2e), 250))
+    fails = []
+    for c in e2e:
+        fails += fs.collected_rows_failures(c)
+    r5 = {"evaluations": len(e2e), "distinct_nontrivial": sum(1 for c in e2e if c["n"] >= 2), "failures": fails,
+          "errors": [], "samples": [], "distribution": {"end_to_end_stream_runs": len(e2e)}}
     return adapters.merge(
-        out + [r3, r4],
+        out + [r3, r4, r5],
         rule="random sequences of 1-3 ContextResults over 0-5 rows: disjoint window layouts (incl. empty, all-covering, "
              "uncovered rows) and 15% overlapping ones, 1-2 streams, 0-2 calls per context over 3 test keys, with and "
              "without axis arrays, list and dict forms; implementation vs faithful model on all, vs the property's "
-             "specification on the well-formed disjoint ones. non-trivial = >=2 contexts or raises",
+             "specification on the well-formed disjoint ones; plus end-to-end runs of the pandas / numpy / netcdf front "
+             "ends (random tables, index kinds, windows, contexts) whose collected flags are compared row by row with the "
+             "probe called directly on each window's rows. non-trivial = >=2 contexts or raises",
     )
